@@ -15,19 +15,19 @@ func propC17(c *Ctx, r *Report) {
 	hold := c.fn("node.Pegnetd.ApplyTransactionBatchesInHolding")
 	atbk := c.fn("node.Pegnetd.ApplyTransactionBlock")
 	atb := c.fn("node.Pegnetd.applyTransactionBatch")
-	setName := "pegnet.(*Pegnet).SetTransactionHistoryExecuted"
+	setName := "pegnet.Pegnet.SetTransactionHistoryExecuted"
 
 	// P1
 	r.rule("C17-P1/executed-status", 1, "a debited batch is marked executed at the executing height")
 	{
-		debits := findCalls(rb, "pegnet.(*Pegnet).SubFromBalance")
+		debits := findCalls(rb, "pegnet.Pegnet.SubFromBalance")
 		sets := findCalls(rb, setName)
 		var bad []string
 		if len(debits) != 1 || len(sets) != 1 {
 			bad = append(bad, fmt.Sprintf("%d debit and %d status call sites", len(debits), len(sets)))
 		} else {
 			set := sets[0]
-			if valuePath(unwrapConv(set.Common().Args[3])) != "currentHeight" {
+			if !c.isExecHeight(set.Common().Args[3]) {
 				bad = append(bad, "status written is "+valuePath(unwrapConv(set.Common().Args[3]))+", expected currentHeight")
 			}
 			if !instrDominates(debits[0], set) {
@@ -87,7 +87,7 @@ func propC17(c *Ctx, r *Report) {
 	for _, cs := range cases {
 		calls := base()
 		calls[cs.key] = cs.val
-		sc := &Scenario{Params: map[string]AVal{"currentHeight": hconst(cs.h)}, Calls: calls, MaxDepth: 1, AllErrorsNil: true,
+		sc := &Scenario{Params: map[string]AVal{"type:uint32": hconst(cs.h)}, Calls: calls, MaxDepth: 1, AllErrorsNil: true,
 			NoInline: map[string]bool{"recordPegnetRequests": true, "GetPegNetRateAverages": true, "SetTransactionHistoryExecuted": true, "SelectMostRecentRatesBeforeHeight": true, "SelectTransactionBatchesInHoldingAtHeight": true, "SelectBankEntry": true}}
 		t := newSCCP(c, sc).analyse(hold, nil)
 		r.Scen++
@@ -127,7 +127,7 @@ func propC17(c *Ctx, r *Report) {
 	// P3
 	r.rule("C17-P3/applied-means-recorded", 1, "applyTransactionBatch returns nil only after recordBatch succeeded")
 	{
-		recs := findCalls(atb, "node.(*Pegnetd).recordBatch")
+		recs := findCalls(atb, "node.Pegnetd.recordBatch")
 		if len(recs) != 1 {
 			r.viol("C17-P3/applied-means-recorded", "recordBatch call in applyTransactionBatch", c.pos(atb.Pos()), fmt.Sprintf("%d call sites", len(recs)))
 		} else {
@@ -155,9 +155,9 @@ func propC17(c *Ctx, r *Report) {
 	// P4 amounts
 	r.rule("C17-P4/recorded-amounts", 2, "amounts in history are the amounts credited")
 	{
-		hist := findCalls(rb, "pegnet.(*Pegnet).SetTransactionHistoryConvertedAmount")
+		hist := findCalls(rb, "pegnet.Pegnet.SetTransactionHistoryConvertedAmount")
 		var credit ssa.CallInstruction
-		for _, a := range findCalls(rb, "pegnet.(*Pegnet).AddToBalance") {
+		for _, a := range findCalls(rb, "pegnet.Pegnet.AddToBalance") {
 			if typePath(a.Common().Args[3]) == "fat2.Transaction.Conversion" {
 				credit = a
 			}
@@ -172,8 +172,8 @@ func propC17(c *Ctx, r *Report) {
 	// (PEG yield/refund provenance is C16/second-pass-provenance; reuse the same facts here)
 	rp := c.fn("node.Pegnetd.recordPegnetRequests")
 	{
-		hist := findCalls(rp, "pegnet.(*Pegnet).SetTransactionHistoryPEGConvertedRequestAmount")
-		adds := findCalls(rp, "pegnet.(*Pegnet).AddToBalance")
+		hist := findCalls(rp, "pegnet.Pegnet.SetTransactionHistoryPEGConvertedRequestAmount")
+		adds := findCalls(rp, "pegnet.Pegnet.AddToBalance")
 		okk := len(hist) == 1 && len(adds) == 2
 		if okk {
 			ha := hist[0].Common().Args
@@ -194,7 +194,7 @@ func propC17(c *Ctx, r *Report) {
 	ith := c.fn("pegnet.Pegnet.InsertTransactionHistoryTxBatch")
 	{
 		okk := false
-		for _, ci := range findCalls(ith, "database/sql.(*Stmt).Exec") {
+		for _, ci := range findCalls(ith, "database/sql.Stmt.Exec") {
 			els := varargElems(ci.Common().Args[1])
 			if len(els) == 5 {
 				if mi, ok := els[4].(*ssa.MakeInterface); ok {
@@ -216,7 +216,7 @@ func propC17(c *Ctx, r *Report) {
 	{
 		n := 0
 		var stmts []ssa.Value
-		for _, ci := range findCalls(ith, "database/sql.(*Tx).Prepare") {
+		for _, ci := range findCalls(ith, "database/sql.Tx.Prepare") {
 			if k, ok := ci.Common().Args[1].(*ssa.Const); ok && strings.Contains(k.Value.ExactString(), "pn_history_lookup") {
 				if call, ok := ci.(*ssa.Call); ok {
 					for _, rf := range *call.Referrers() {
@@ -227,7 +227,7 @@ func propC17(c *Ctx, r *Report) {
 				}
 			}
 		}
-		for _, ci := range findCalls(ith, "database/sql.(*Stmt).Exec") {
+		for _, ci := range findCalls(ith, "database/sql.Stmt.Exec") {
 			isLookup := false
 			for _, s := range stmts {
 				if ci.Common().Args[0] == s {
